@@ -114,6 +114,11 @@ GRV_CMD(shape) {
         }
         if (gf) gr_font_destroy(gf);
         gr_face_destroy(face);
+        // a face served through the table callbacks gives back exactly the buffers it was handed, each once
+        if (viaops && (tfc.unknownRel || tfc.doubleRel || tfc.outstanding())) {
+            vj::W w; w.str("font", font).str("id", id).i("unknown_releases", tfc.unknownRel).i("double_releases", tfc.doubleRel).i("not_released", (long long)tfc.outstanding());
+            report_fail(j->has("prop") ? (*j)["prop"].s.c_str() : "*", "release_table was called with a pointer get_table never returned, twice for one buffer, or not at all", w.done());
+        }
     }
     fclose(f);
     vj::W w; w.i("segments", segs).i("null", nulls);
